@@ -84,6 +84,10 @@ def scenarios(tier, rng):
     sc = S("", [], [], [], connacks=[{"silent": True}] * 3, opts={"reconnBaseMs": 2, "reconnMaxMs": 5, "noReestablish": True})
     sc["reqs"] += [{"k": "cancelconnect", "at": "write:1"}, {"k": "sleep", "ms": 40, "at": "conn"}, {"k": "disconnect", "at": "conn"}]
     add(sc)
+    # a long outage: 70 consecutive failures (base 1 ms, max 2 ms) after a lost connection -- "at least doubling ... up to
+    # the maximum" has to hold for every one of them (no arithmetic that gives out after some tens of doublings)
+    add(S("", [P(1)], ["conn"], [{"p": "PUBLISH", "n": 1, "o": "cutAfter"}], dials=["ok"] + ["fail"] * 70, opts={"reconnBaseMs": 1, "reconnMaxMs": 2, "deadlineMs": 3000}))
+    add(S("", [P(1)], ["pre"], [], dials=["fail"] * 70, opts={"reconnBaseMs": 1, "reconnMaxMs": 3, "deadlineMs": 3000}), hook=True)
     # seeded mixtures
     n = 40 if tier == "quick" else 600
     for j in range(n):
